@@ -260,10 +260,8 @@ def check(ctx: Ctx, ev: Evidence) -> list[Finding]:
                                            f"EOF PDU announces file size {size!r} but its checksum was computed over {last_size!r}", x.site, witness_of(a, e)))
                 last_size = None
     # the SENDING_EOF step is entered only with progress == file_size (or the empty-file flag)
-    for fq in ("cfdppy.handler.source.SourceHandler._handle_file_data_sent", "cfdppy.handler.source.SourceHandler._sending_file_data_fsm"):
-        f2 = prog.functions.get(fq)
-        if f2 is None:
-            continue
+    for f2 in [f for f in prog.functions.values() if f.cls == "cfdppy.handler.source.SourceHandler"]:
+        fq = f2.qualname
         for n in ast.walk(f2.node):
             if isinstance(n, ast.Assign) and ast.unparse(n.value).endswith("TransactionStep.SENDING_EOF"):
                 g = [ast.unparse(x) + ("" if pol else " [negated]") for x, pol in guards_of(f2.node, n)]
